@@ -39,6 +39,7 @@ Record config := mkConfig {
   cf_flavour : flavour;
   cf_oauth2 : bool;                 (* ForceAttemptOAuth2 *)
   cf_creds : host -> cred;
+  cf_cred_err : host -> bool;       (* the CredentialFunc returns an error for this host *)
 }.
 
 (* ---------- concurrentCache: host -> (scheme, key -> token) ---------- *)
@@ -129,20 +130,22 @@ Inductive answer :=
 | A401 (hdr : str)    (* 401 with this Www-Authenticate header *)
 | ATok (id : N)       (* token endpoint: 200 with a non-empty token *)
 | AFail               (* token endpoint: anything else *)
+| AShare (id : N)     (* no request of this call: the cache handed it the token that a concurrent
+                         call's in-flight fetch for the same host, scheme and key obtained *)
 | AErr.               (* no response: transport error or cancelled context *)
 
-Inductive err := ENoCred | EMissing | EFetch | ERewind | ETransport.
+Inductive err := ENoCred | EMissing | EFetch | ERewind | ETransport | ECred.
 
 Inductive result :=
 | RResp (is401 : bool)
 | RErr (e : err)
 | RBad.                (* script exhausted / ill-typed answer / challenge outside the modelled subset *)
 
-Inductive body := BNone | BRewindable | BOnce.
+Inductive body := BNone | BRewindable | BOnce | BGetBodyErr.   (* BGetBodyErr: GetBody returns an error *)
 
 Definition event := (send * answer)%type.
 
-Definition rewind_ok (b : body) : bool := match b with BOnce => false | _ => true end.
+Definition rewind_ok (b : body) : bool := match b with BOnce | BGetBodyErr => false | _ => true end.
 
 (* the last send of a request: its answer is the result *)
 Definition final_send (s : send) (script : list answer) : list event * result :=
@@ -156,7 +159,8 @@ Definition final_send (s : send) (script : list answer) : list event * result :=
 (* fetchBasicAuth *)
 Definition fetch_basic (cf : config) (h : host) : result + secret :=
   let c := cf_creds cf h in
-  if cred_empty c then inl (RErr ENoCred)
+  if cf_cred_err cf h then inl (RErr ECred)
+  else if cred_empty c then inl (RErr ENoCred)
   else if negb (c_user c) || negb (c_pass c) then inl (RErr EMissing)
   else inr (SBasicTok h).
 
@@ -168,7 +172,8 @@ Inductive fetch_plan :=
 
 Definition fetch_bearer_plan (cf : config) (h : host) (realm service : str) (scopes : list str) : fetch_plan :=
   let c := cf_creds cf h in
-  if c_access c then FPDirect (SAccess h)
+  if cf_cred_err cf h then FPErr ECred
+  else if c_access c then FPDirect (SAccess h)
   else if cred_empty c || (negb (c_refresh c) && negb (cf_oauth2 cf)) then
     FPSend (SDist h realm service scopes
               (if c_user c || c_pass c then Some (SUserPass h) else None))
@@ -252,6 +257,7 @@ Definition do_request (clean : list str -> list str) (parse : str -> scheme * pa
         | FPSend s =>
           match script2 with
           | ATok id :: script3 => finish [(s, ATok id)] (SIssued h id) script3
+          | AShare id :: script3 => finish [] (SIssued h id) script3
           | AFail :: _ => (evs0 ++ [(s, AFail)], c, RErr EFetch)
           | AErr :: _ => (evs0 ++ [(s, AErr)], c, RErr ETransport)
           | _ => (evs0, c, RBad)
@@ -313,10 +319,12 @@ Definition parse_with (tbl : list (str * (scheme * params))) (h : str) : scheme 
   | ChUnjudged => match parse_lookup tbl h with Some r => r | None => (SchUnknown, []) end
   end.
 
-Definition run_model (fl : flavour) (oauth2 : bool) (tbl : list (host * cred))
+Definition err_hosts (l : list host) (h : host) : bool := existsb (N.eqb h) l.
+
+Definition run_model (fl : flavour) (oauth2 : bool) (tbl : list (host * cred)) (errs : list host)
            (ptable : list (str * (scheme * params)))
            (hist : list (request * list answer)) : list (list event * result) :=
-  fst (run_history clean_scopes (parse_with ptable) (mkConfig fl oauth2 (lookup_cred tbl)) [] hist).
+  fst (run_history clean_scopes (parse_with ptable) (mkConfig fl oauth2 (lookup_cred tbl) (err_hosts errs)) [] hist).
 
 (* headers of a script that the model's parser does not judge and the table does not cover *)
 Definition unjudged_header (ptable : list (str * (scheme * params))) (a : answer) : bool :=
